@@ -80,16 +80,14 @@ def run(prop, tier, seed, replay=None):
                 if r["op"] == "categorize" and r["out"]:
                     bad = copy.deepcopy(r)
                     bad["out"][0]["cat"] = ["zz-not-a-category"]
+                    traces.append([copy.deepcopy(r)])      # control
                     traces.append([bad])
                     ncan += 1
                     break
     acc, rej, stats = tlc.judge("AwClassifyTrace", JUDGE, traces, tag="judge_c19", chunk=60)
     rep.add_judge_stats(stats)
     nreal = len(parts)
-    for ci in range(nreal, nreal + ncan):
-        if ci in acc:
-            raise tlc.TLCFailure("canary (category replaced) accepted by the judge")
-    rep.notes["canaries_rejected"] = ncan
+    rep.notes["canaries_rejected"] = tlc.check_canary_pairs(acc, nreal, ncan, "category replaced")
     byop = {}
     for c in cases:
         byop[c[0]] = byop.get(c[0], 0) + 1
